@@ -260,6 +260,23 @@ def monitor(spec, res, acc):
     dup = [t for t, k in per_step.items() if k != 1]
     if dup:
         acc.add("calls-per-step", f"irrigation was evaluated {per_step[dup[0]]}x in step {dup[0]}", dict(t=dup[0]))
+    # ---- nothing between a season's harvest (as the seasonal summary records it) and the next
+    # planting date: "growing season" here is the calendar's, not the model's in-season flag
+    if res.summary is not None and len(res.summary) and method != 4:
+        span0 = tr.init["span0"]
+        pl = [int((x - span0).days) for x in tr.init["planting"]]
+        hs = [int(x) for x in res.summary["Harvest Date (Step)"].tolist()]
+        for k, h in enumerate(hs):
+            nxt = pl[k + 1] if k + 1 < len(pl) else 10 ** 9
+            for t in range(h + 1, min(nxt, h + 400)):
+                s = steps.get(t)
+                if s is None:
+                    continue
+                cov["fallow_days_after_harvest_checked"] += 1
+                if s["flux"][FX["IrrDay"]] != 0:
+                    acc.add("irrigation-off-season", f"step {t}: {s['flux'][FX['IrrDay']]!r} mm applied after the harvest of "
+                            f"season {k} (step {h}) and before the next planting date", dict(t=t, harvest_step=h, season=k))
+                    break
     return cov.get("in_season_calls", 0) >= 30 and (applied >= 1 or method == 0)
 
 
